@@ -10,6 +10,7 @@ import (
 	"strings"
 	"syscall"
 	"time"
+	"verifharness/internal/report"
 
 	"go.uber.org/thriftrw/protocol/binary"
 	"go.uber.org/thriftrw/protocol/stream"
@@ -391,8 +392,9 @@ func runC13(c *checker, r *rng.R) {
 			}
 		}
 	}
+	c13DeepNesting(c)
 	c.flushCost()
-	c.rep.Rule = "messages ≤ 64 bytes (random structs, optionally enveloped strict/legacy) with every 4-byte length/count position set to each of {2^16, 2^20-1, 2^20, 2^20+1, 2^24, 2^27, 2^31-1, 0xffffffff, 0x80000000}; top-level containers of every element type (the 11 defined codes and 12 undefined ones); envelope name length; frame length × APIs {stream primitives, Skip, Decode+EvaluateValue, ReadEnvelopeBegin, DecodeEnveloped, DecodeRequest, ReadRequest, frame reader}; measured = runtime TotalAlloc delta; every case non-trivial; distinct by (api, bytes)"
+	c.rep.Rule = "messages ≤ 64 bytes (random structs, optionally enveloped strict/legacy) with every 4-byte length/count position set to each of {2^16, 2^20-1, 2^20, 2^20+1, 2^24, 2^27, 2^31-1, 0xffffffff, 0x80000000}; top-level containers of every element type (the 11 defined codes and 12 undefined ones); envelope name length; frame length × APIs {stream primitives, Skip, Decode+EvaluateValue, ReadEnvelopeBegin, DecodeEnveloped, DecodeRequest, ReadRequest, frame reader}; deeply nested valid containers (1 item per level, up to 8000 levels: work must stay linear — known finding D79 for the lazy decoder); measured = runtime TotalAlloc delta; every case non-trivial; distinct by (api, bytes)"
 	_ = strings.TrimSpace
 }
 
@@ -403,4 +405,56 @@ func cpuTime() time.Duration {
 		return 0
 	}
 	return time.Duration(ru.Utime.Nano() + ru.Stime.Nano())
+}
+
+// c13DeepNesting: the work of decoding a VALID message must be linear in its size whatever its
+// shape. Containers nested one item per level: list<list<…<i8>>>, depth d, 5·d+5 bytes. The
+// streaming reader and Skip are linear. The lazy decoder is not — known finding D79: every level
+// is skipped once when its parent is decoded and once more when it is forced, so Decode +
+// EvaluateValue costs depth² (8000 levels, 40 KB: seconds).
+func c13DeepNesting(c *checker) {
+	nest := func(d int) []byte {
+		b := bytes.Repeat([]byte{wv.TList, 0, 0, 0, 1}, d)
+		return append(b, wv.TI8, 0, 0, 0, 0)
+	}
+	time1 := func(f func()) time.Duration {
+		t0 := cpuTime()
+		f()
+		return cpuTime() - t0
+	}
+	for _, d := range []int{500, 2000, 8000} {
+		b := nest(d)
+		c.rep.Hist("how", "deep nesting")
+		c.rep.Case(fmt.Sprintf("deep-nesting %d", d), true)
+		input := fmt.Sprintf("A x %d %s", wv.TList, hx(b))
+		// a generous linear bound: 2 µs per input byte + 50 ms
+		bound := time.Duration(len(b))*2*time.Microsecond + 50*time.Millisecond
+		if el := time1(func() {
+			sr := binary.NewStreamReader(newChunkReader(b, nil))
+			_ = sr.Skip(wire.TList)
+			sr.Close()
+		}); el > bound {
+			c.oracle("C13 work not linear in the input size (deep nesting, Skip)", input, fmt.Sprintf("took %v of CPU time for %d bytes", el, len(b)), fmt.Sprintf("bound %v", bound))
+		}
+		if el := time1(func() {
+			sr := binary.Default.Reader(newChunkReader(b, nil))
+			_ = drain(sr, wv.TList)
+			sr.Close()
+		}); el > bound {
+			c.oracle("C13 work not linear in the input size (deep nesting, streaming reader)", input, fmt.Sprintf("took %v of CPU time for %d bytes", el, len(b)), fmt.Sprintf("bound %v", bound))
+		}
+		el := time1(func() {
+			w, err := binary.Default.Decode(bytes.NewReader(b), wire.TList)
+			if err == nil {
+				_ = wire.EvaluateValue(w)
+			}
+		})
+		if d == 8000 {
+			if el > bound {
+				c.rep.Known = append(c.rep.Known, report.Known{ID: "D79", What: fmt.Sprintf("Decode + EvaluateValue of list<list<…>> nested %d levels, one item per level (%d bytes): %v of CPU time (linear bound %v); the lazy decoder skips every level once per enclosing level", d, len(b), el.Round(time.Millisecond), bound)})
+			} else {
+				c.rep.Notes = append(c.rep.Notes, fmt.Sprintf("D79 probe: forcing %d nested levels took %v (bound %v) — the finding appears to be repaired; known_findings.json should say so", d, el, bound))
+			}
+		}
+	}
 }
